@@ -9,6 +9,7 @@ ORACLE = ISO 32000-1 §12.4.2 evaluated on the implementation's answer:
   `fail:label-mismatch`       some label differs from the specification's (any cause but the next)
   `fail:letters-bijective26`  the only deviations are letter-style labels that equal the
                               bijective base-26 ("spreadsheet column") rendering of the value
+  `fail:prefix-not-text-string`  a /P with non-ASCII characters is written as raw UTF-8 bytes (C27-F2)
   `fail:written-labels`       the /PageLabels object written into a document does not read back
                               (independent reader) to the authored labels
 -/
@@ -193,7 +194,12 @@ def readPageLabels (raw : List Nat) : Option (List (Nat × Label)) :=
 
 /-- `(Spec.label t idx).map enc`, computed without materialising huge letter runs -/
 def specLabelOpt (t : List (Nat × Label)) (idx : Nat) : Option String :=
-  (Spec.applicable t idx).map fun (s, l) => specEnc l.style (l.pfx.getD []) (l.start + (idx - s))
+  (Spec.applicable t idx).map fun (s, l) =>
+    -- beyond the integer limits of Annex C the label is not judged (and a Roman numeral of
+    -- 4·10⁹ would be millions of `m`s): compare the range only
+    if l.style ≠ .none ∧ l.start + (idx - s) > U32_MAX then
+      s!"beyond-u32:{s}:{l.start}:{hexField (l.pfx.getD [])}:{(l.style.toPdfName).getD "~"}"
+    else specEnc l.style (l.pfx.getD []) (l.start + (idx - s))
 
 def handle (req impl : String) : String × String :=
   match req.splitOn " " with
@@ -231,9 +237,26 @@ def handle (req impl : String) : String × String :=
           -- is exactly the tree the model holds
           let model := if decide (rd = t) then impl else dumpTree t
           -- every queried page, plus the pages around every range start
-          let probes := idx ++ adds.flatMap fun a => [a.1 - 1, a.1, a.1 + 1, a.1 + 27]
+          -- (the extra probes skip Roman numerals beyond 50000: thousands of `m`s, quadratic here;
+          -- the queried pages `idx` are judged whatever they are)
+          let cheap (i : Nat) : Bool := match Spec.applicable adds i with
+            | some (s, l) =>
+              !((l.style = .upperRoman || l.style = .lowerRoman) && l.start + (i - s) > 50000)
+            | none => true
+          let probes := idx ++ (adds.flatMap fun a => [a.1 - 1, a.1, a.1 + 1, a.1 + 27]).filter cheap
           let bad := probes.any fun i => specLabelOpt rd i ≠ specLabelOpt adds i
-          (model, if bad then "fail:written-labels" else "ok")
+          -- /P is a text string (§7.9.2.2): the reader decodes it (PDFDocEncoding or, after
+          -- FE FF, UTF-16BE) and must see the authored characters
+          let want := Spec.finalRanges adds
+          let pfxBad := rd.length ≠ want.length ∨
+            (List.zip rd want).any fun (r, w) => ¬ Spec.prefixReadsBack r.2.pfx w.2.pfx
+          -- … the modelled defect: the authored UTF-8 bytes verbatim, some of them ≥ 0x80
+          let pfxRawUtf8 := rd.length = want.length ∧ (List.zip rd want).all fun (r, w) =>
+            Spec.prefixReadsBack r.2.pfx w.2.pfx ∨
+              (r.2.pfx = w.2.pfx ∧ (r.2.pfx.getD []).any (· ≥ 128))
+          (model, if bad then "fail:written-labels"
+            else if pfxBad then (if pfxRawUtf8 then "fail:prefix-not-text-string" else "fail:written-labels-prefix")
+            else "ok")
       | _, _, _ => (impl ++ "?", "na")
     else ("bad-request", "na")
   | ["fd", nums] =>
